@@ -44,6 +44,9 @@ EDGE_GUARD = 1e-3  # general position: no test point closer than this to any tri
 N = 7
 NS = 5
 SLOTS = ("x", "xc", "y", "s", "w")
+# integer / float32 / "integer + 0.25" versions of x: same shape, other dtype (a memo keyed on a buffer that keeps the dtype
+# of the first array it saw would confuse xq with xi)
+FORM_SLOTS = ("xi", "xq", "xf")
 
 
 # ------------------------------------------------------------------------------------------------
@@ -316,7 +319,7 @@ class Letter(object):
             w[6] = self.centres[0]
         # "xi" / "xf": the same points as integer and single-precision arrays (a batched path that allocates its
         # output with the input's dtype would truncate them)
-        self.pool0 = {"x": x, "xc": x * (1 + 1e-7), "y": y, "s": x[:NS].copy(), "w": w, "xi": np.round(x).astype(np.int64), "xf": x.astype(np.float32)}
+        self.pool0 = {"x": x, "xc": x * (1 + 1e-7), "y": y, "s": x[:NS].copy(), "w": w, "xi": np.round(x).astype(np.int64), "xf": x.astype(np.float32), "xq": np.round(x) + 0.25}
         self.alt = alt
         for k, v in self.pool0.items():
             if k != "w" and self.is_pwa and self.ref(v)[0] != "ok":
@@ -382,7 +385,7 @@ def m_payload(img, cloud, seed):
 
 
 H_OPS = (
-    [("apply", s) for s in SLOTS]
+    [("apply", s) for s in SLOTS + FORM_SLOTS]
     + [("applyb", "x", 1), ("applyb", "x", 3), ("applyb", "x", 7), ("applyb", "x", 9), ("applyb", "y", 3), ("applyb", "w", 3)]
     + [("shape", None), ("shape", 3)]
     + [("copy", "x", "y"), ("copy", "x", "xc"), ("copy", "xc", "x"), ("copy", "y", "x"), ("copy", "x", "w"), ("copy", "w", "x")]
